@@ -1,6 +1,7 @@
 package main
 
 import (
+	"encoding/base64"
 	"fmt"
 
 	"github.com/MichaelMure/git-bug/api/graphql/connections"
@@ -63,6 +64,10 @@ var c20Instances = []struct {
 				return models.LabelEdge{Node: v, Cursor: connections.OffsetToCursor(off)}
 			},
 			func(edges []*models.LabelEdge, nodes []bug.Label, info *models.PageInfo, total int) (*models.LabelConnection, error) {
+				if len(edges) != len(nodes) {
+					out.Err = fmt.Sprintf("%d edges for %d nodes", len(edges), len(nodes))
+					return nil, nil
+				}
 				for i, nd := range nodes {
 					var k int
 					fmt.Sscanf(string(nd), "%d", &k)
@@ -92,6 +97,10 @@ var c20Instances = []struct {
 				return connections.LazyBugEdge{Id: v, Cursor: connections.OffsetToCursor(off)}
 			},
 			func(edges []*connections.LazyBugEdge, nodes []entity.Id, info *models.PageInfo, total int) (*models.BugConnection, error) {
+				if len(edges) != len(nodes) {
+					out.Err = fmt.Sprintf("%d edges for %d nodes", len(edges), len(nodes))
+					return nil, nil
+				}
 				for i, nd := range nodes {
 					var k int
 					fmt.Sscanf(string(nd), "%d", &k)
@@ -120,6 +129,10 @@ var c20Instances = []struct {
 				return connections.LazyIdentityEdge{Id: v, Cursor: connections.OffsetToCursor(off)}
 			},
 			func(edges []*connections.LazyIdentityEdge, nodes []entity.Id, info *models.PageInfo, total int) (*models.IdentityConnection, error) {
+				if len(edges) != len(nodes) {
+					out.Err = fmt.Sprintf("%d edges for %d nodes", len(edges), len(nodes))
+					return nil, nil
+				}
 				for i, nd := range nodes {
 					var k int
 					fmt.Sscanf(string(nd), "%d", &k)
@@ -148,6 +161,10 @@ var c20Instances = []struct {
 				return models.CommentEdge{Node: &v, Cursor: connections.OffsetToCursor(off)}
 			},
 			func(edges []*models.CommentEdge, nodes []bug.Comment, info *models.PageInfo, total int) (*models.CommentConnection, error) {
+				if len(edges) != len(nodes) {
+					out.Err = fmt.Sprintf("%d edges for %d nodes", len(edges), len(nodes))
+					return nil, nil
+				}
 				for i, nd := range nodes {
 					var k int
 					fmt.Sscanf(nd.Message, "%d", &k)
@@ -219,6 +236,15 @@ func c20Cursors(n int) []struct {
 	out = append(out, cc{"foreign", strp(connections.OffsetToCursor(n + 3))})
 	out = append(out, cc{"malformed", strp("not base64 !!")})
 	out = append(out, cc{"empty", strp("")})
+	// cursors no edge carries but that a decoding implementation could mistake for an offset
+	b64 := func(s string) *string { return strp(base64.StdEncoding.EncodeToString([]byte(s))) }
+	out = append(out, cc{"alias", b64("cursor:-1")})
+	out = append(out, cc{"alias", b64("cursor:-2")})
+	out = append(out, cc{"alias", b64("-3")})
+	out = append(out, cc{"alias", b64("1")})
+	out = append(out, cc{"alias", b64("cursor:+1")})
+	out = append(out, cc{"alias", b64("cursor:01")})
+	out = append(out, cc{"alias", b64("cursor:cursor:1")})
 	return out
 }
 
